@@ -406,7 +406,8 @@ func execHTML(input string) Result {
 		}
 	}
 	ctLower := strings.ToLower(c.St.CT)
-	isHTML := !strings.Contains(ctLower, "xml") && !strings.Contains(ctLower, "json")
+	// extractAssets: IsJSON and IsXML come before IsHTML; IsXML excludes application/xhtml+xml
+	isHTML := strings.Contains(ctLower, "application/xhtml+xml") || (!strings.Contains(ctLower, "xml") && !strings.Contains(ctLower, "json"))
 	sweep := strings.Contains(c.St.CT, "text/")
 	dom := c.dom()
 	plants := collectPlants(dom)
@@ -451,8 +452,10 @@ func execHTML(input string) Result {
 	switch {
 	case c.St.CT == "":
 		tags = append(tags, "ctype-none")
-	case !isHTML:
+	case strings.Contains(ctLower, "xhtml"):
 		tags = append(tags, "ctype-xhtml")
+	case !isHTML:
+		tags = append(tags, "ctype-xml")
 	default:
 		tags = append(tags, "ctype-html")
 	}
